@@ -440,11 +440,13 @@ class PrettyPrinter:
             new_values = []
 
             for v in value:
-                if not isinstance(v, numbers.Number) and attr not in [
-                    "offset",
-                    "polaroffset",
-                ]:
+                if (
+                    not isinstance(v, numbers.Number)
+                    and attr not in ["offset", "polaroffset"]
+                    and not (self.quoter.is_string(v) and self.quoter.in_brackets(v))
+                ):
                     # don't add quotes to list of attributes for offset / polaroffset
+                    # or to attribute bindings in any other list e.g. SHADOWSIZE 1 [item]
                     v = self.quoter.add_quotes(v)
                 new_values.append(v)
 
